@@ -247,9 +247,10 @@ func replayRPC(args []string) error {
 	seed := fs.Int64("seed", 1, "seed")
 	bin := fs.String("updog", "", "updog binary")
 	stride := fs.Int("stride", 1, "every n-th batch per server configuration")
+	binProbe := fs.Bool("binprobe", false, "also ask for group values that are not valid UTF-8 (C13)")
 	fs.Parse(args)
 	rng := rand.New(rand.NewSource(*seed))
-	dict := identDict(rng, 3)
+	dict := identDictU(rng, 3, true)
 	dir := vx.Scratch("replayrpc")
 	defer os.RemoveAll(dir)
 	rep := &vx.Report{Notes: map[string]any{}}
@@ -379,6 +380,26 @@ func replayRPC(args []string) error {
 		srv.stop()
 		<-srv.done
 	}
+	// index values that are not valid UTF-8: the library answers, the service must answer alike
+	if *binProbe {
+		bd := vx.NewDict([]string{"a", "b"}, []string{"x", "\xff"})
+		bpath, err := buildIndex(bd, dir, "bin.updog", "mem", []vx.Row{{{1, 1}, {2, 2}}, {{1, 1}, {2, 1}}})
+		if err != nil {
+			return err
+		}
+		srv, err := startServer(*bin, bpath, true, false)
+		if err != nil {
+			return err
+		}
+		rep.Steps++
+		q := rpcQuery{E: &HExpr{Op: "eq", Col: 1, Val: 1}, GB: []int{2}}
+		resp, rerr := srv.query(&proto.QueryRequest{Queries: []*proto.Query{toPBQuery(bd, q, rng, true)}})
+		if rerr != nil || len(resp.Results) != 1 || len(resp.Results[0].Groups) != 2 {
+			rep.Mismatch(map[string]any{"kind": "rpc-non-utf8-value", "input": "index value \\xff, query a = \"x\" ; b", "err": fmt.Sprint(rerr)})
+		}
+		srv.stop()
+		<-srv.done
+	}
 	if len(lines) > 3 {
 		rep.Samples = append(rep.Samples, lines[len(lines)/2], lines[len(lines)-1])
 	}
@@ -464,7 +485,7 @@ func recordRPC(args []string) error {
 		return err
 	}
 	rng := rand.New(rand.NewSource(*seed))
-	dict := identDict(rng, 3)
+	dict := identDictU(rng, 3, true)
 	dir := vx.Scratch("recrpc")
 	defer os.RemoveAll(dir)
 	rows := []vx.Row{{{1, 1}, {2, 1}}, {{1, 1}, {2, 2}}, {{1, 2}}, {{2, 2}}, {}, {{1, 3}, {2, 1}}}
